@@ -245,6 +245,7 @@ struct C18Exec {
 
 void C18Exec::prepare(C18Outcome &out) {
     constSharedReset();
+    ambientResetStreams();
     slots.assign((size_t)T, std::vector<OpSlot>());
     for (int t = 0; t < T; t++) slots[t].resize(cs.progs[t].size());
 
